@@ -71,20 +71,23 @@ Section Vec.
   Definition JvpFamily (O : Type) := O -> N -> list vec -> list vec -> list vec.
 
   (* The obligation per operator (non-parameter operators only; the Parameter operator is
-     handled by the graph).  For argument values xs and tangents dxs of equal sizes and any
-     upstream gradients gys sized like the outputs:
+     handled by the graph).  For argument shapes ashs accepted by forward_shape (result shapes
+     rshs), argument values xs and tangents dxs of those shapes, and any upstream gradients gys
+     shaped like the outputs:
        sum_i <inc_i, dx_i> = sum_j <gy_j, jvp_j>      (increments pair with the JVP)
-     and the increments (possibly fewer than arguments: a missing increment is "nothing
-     added") / the tangents are sized like the arguments / the outputs.  A BACKWARD_NOP
-     operator (stop_gradient, input, constant, random) satisfies it iff its tangent is 0. *)
-  Definition LocalAdjoint {O Sh} (F : OpFamily O Sh vec) (jvp : JvpFamily O) (o : O) : Prop :=
-    forall pos xs dxs gys,
+     the increments (possibly fewer than arguments: a missing increment is "nothing added")
+     have the arguments' sizes and the tangents the outputs' sizes.  A BACKWARD_NOP operator
+     (stop_gradient, input, constant, random) satisfies it iff its tangent pairs to 0. *)
+  Definition LocalAdjoint {O Sh} (F : OpFamily O Sh vec) (jvp : JvpFamily O) (size : Sh -> nat) (o : O) : Prop :=
+    forall pos ashs rshs xs dxs gys,
+      f_shape F o ashs = Some rshs ->
+      Forall2 (fun x sh => length x = size sh) xs ashs ->
+      Forall2 (fun dx sh => length dx = size sh) dxs ashs ->
+      Forall2 (fun gy sh => length gy = size sh) gys rshs ->
       let ys := f_fw F o pos xs in
-      Forall2 (fun x dx => length dx = length x) xs dxs ->
-      Forall2 (fun y gy => length gy = length y) ys gys ->
       let incs := eff_bw F o xs ys gys in
       dots incs dxs = dots gys (jvp o pos xs dxs) /\
       (forall i inc, nth_error incs i = Some inc ->
-         exists x, nth_error xs i = Some x /\ length inc = length x) /\
-      Forall2 (fun y t => length t = length y) ys (jvp o pos xs dxs).
+         exists sh, nth_error ashs i = Some sh /\ length inc = size sh) /\
+      Forall2 (fun t sh => length t = size sh) (jvp o pos xs dxs) rshs.
 End Vec.
